@@ -32,8 +32,13 @@ def component_of(p):
 
 
 def execute(p, res):
-    for spec in list(p["specs"]) + (list(reversed(p["specs"])) if len(p["specs"]) > 1 else []):
+    from kmc.engine import fresh_kaira
+    for spec in p["specs"]:
         run_spec({"spec": spec, "tier": p["tier"]}, res)
+    if len(p["specs"]) > 1:
+        fresh_kaira()          # the reverse order starts from pristine module state as well
+        for spec in reversed(p["specs"]):
+            run_spec({"spec": spec, "tier": p["tier"]}, res)
 
 
 def expected(kind, bits, b):
